@@ -676,3 +676,40 @@ def r05_8(cx):
                 if n == 0:
                     why = why or 'no iteration handles a recorded byte'
         cx.report('R05.8', b, 'full-scan', why is None, '%s::build scans all byte values 0..=255; every recorded byte ends up in the finder or build() gives up' % nm if why is None else '%s::build: %s' % (nm, why))
+
+
+@only(PERF)
+def r05_9(cx):
+    """packed::Builder::add: once a pattern cannot be represented (too many, or empty) the builder becomes inert for good:
+    the collection is reset ONLY together with inert = true, and an inert builder collects nothing. Otherwise a searcher is
+    built for a tail of the pattern set with renumbered ids (false negatives, wrong ids)."""
+    b = None
+    for p, bb in cx.facts.bodies.items():
+        if re.match(r'^packed::api::Builder::add(::<.*>)?$', p):
+            b = cx.body(p)
+    if b is None:
+        cx.bad('R05.9', 'packed::api::Builder::add', 'inert', 'packed::api::Builder::add not found')
+        return
+    rows = [r for r in summarize(cx.facts, b) if r.end == 'return']
+    why = None if rows else 'no returning path'
+    nadd = nreset = 0
+    for r in rows:
+        inert = r.cond('self.inert')
+        adds = r.calls(r'packed::pattern::Patterns::add$')
+        resets = r.calls(r'packed::pattern::Patterns::reset$')
+        st = {cstr(p): canon(v) for p, v in r.stores()}
+        if inert is True and (adds or resets or st):
+            why = 'an inert builder still changes its pattern collection'
+        if resets:
+            nreset += 1
+            if st.get('self.inert') != ('c', 1):
+                why = 'the pattern collection is reset without the builder becoming inert: later patterns are collected from scratch'
+            if adds:
+                why = 'a pattern is added on the path that resets the collection'
+        if adds:
+            nadd += 1
+            if inert is not False:
+                why = why or 'patterns are collected without checking the inert flag'
+    if nadd == 0 or nreset < 2:
+        why = why or 'expected one collecting path and two give-up paths (too many patterns, empty pattern); found %d / %d' % (nadd, nreset)
+    cx.report('R05.9', b, 'inert', why is None, 'packed::Builder::add resets the collection only together with inert = true; an inert builder collects nothing' if why is None else why)
